@@ -18,6 +18,8 @@ def run(ctx):
                 "whole-dimension and many-interval selections, varied non-zero benefits at margin 0); every second history from the directed family deepen (rebalancing on, sf in {0,0.1}, margin 1, deepest intervals + neighbours of one dimension refined repeatedly: rotations and lmax raises by >1 in one step); model and implementation compared after every refine(); "
                 "a case is one history, distinct by configuration + benefit script, non-trivial if at least one interval was split")
     drv = ctx.driver("drv_c06")
+    import dimwise_gen
+    dimwise_gen.run(ctx, drv, PROP, check_points=False)      # translator tie of the dimension-wise logic (see dimwise_gen.py)
     n = 320 if not thorough else 2400
     budget = 75 if not thorough else 560
     first_break = None
